@@ -71,6 +71,7 @@ func labelObjs(al map[string]map[string]string) []map[string]string {
 func TestC35(t *testing.T) {
 	tr := vt.Open(t)
 	defer tr.Close()
+	defer CleanupFastScratch()
 	var id int64
 	run := func(c vt.Case) {
 		id++
@@ -81,13 +82,13 @@ func TestC35(t *testing.T) {
 		return
 	}
 	rnd := vt.Rand()
-	deathBudget := vt.Pick(0, 100)
+	deathBudget := vt.Pick(0, 60)
 	cases := vt.TLCCases(t)
 	for i, c := range cases {
 		c = vt.Normalize(c)
 		mode := "outage"
 		// thorough: every k-th crashing TLC case is also run with real process death
-		if deathBudget > 0 && len(vt.List(c["crashes"])) > 0 && (i+int(vt.Seed()))%(len(cases)/100+1) == 0 {
+		if deathBudget > 0 && len(vt.List(c["crashes"])) > 0 && (i+int(vt.Seed()))%(len(cases)/60+1) == 0 {
 			mode = "death"
 			deathBudget--
 		}
@@ -96,7 +97,7 @@ func TestC35(t *testing.T) {
 	}
 	kinds := []string{"L1", "L1", "E", "L2"}
 	pres := []string{"absent", "absent", "partial", "complete"}
-	n := vt.Pick(60, 1200)
+	n := vt.Pick(60, 600)
 	for i := 0; i < n; i++ {
 		nb := 1 + rnd.Intn(4)
 		bl := make([]map[string]string, nb)
@@ -220,7 +221,7 @@ func runC35(t *testing.T, tr *vt.Tracer, caseID int64, c vt.Case) {
 	crashes := vt.Ints(c["crashes"])
 	rnd := rand.New(rand.NewSource(vt.Int64(c["bseed"])))
 
-	work, err := os.MkdirTemp(ScratchDir(), "c35-")
+	work, err := os.MkdirTemp(FastScratchDir(), "c35-")
 	if err != nil {
 		t.Fatal(err)
 	}
